@@ -107,6 +107,14 @@ PROOFS = {
                          ("step", ["--cinit=CInit", "--init=IndInit", "--inv=IndInv", "--length=1"]),
                          ("step_as_found", ["--cinit=CInitDrop", "--init=IndInit", "--inv=IndInv", "--length=1"])],
                 "expect_fail": ["step_as_found"]},
+    "stream_abs": {"module": "StreamAbs",
+                   "claim": "for every input length n an abstraction of the streaming parser (every successful sub-parse consumes >= 1 byte, any sub-parse may fail) yields at most n + 1 items and nothing after "
+                            "an error or None; with the countdown kept across an error (as found, D6) the induction step fails",
+                   "runs": [("base", ["--cinit=CInit", "--init=Init", "--inv=IndInv", "--length=0"]),
+                            ("step", ["--cinit=CInit", "--init=IndInit", "--inv=IndInv", "--length=1"]),
+                            ("step_as_found", ["--cinit=CInitKeep", "--init=IndInit", "--inv=IndInv", "--length=1"]),
+                            ("step_as_found_weak", ["--cinit=CInitKeep", "--init=IndInitWeak", "--inv=IndInvWeak", "--length=1"])],
+                   "expect_fail": ["step_as_found", "step_as_found_weak"]},
 }
 
 GEN = {
@@ -207,6 +215,7 @@ PROPS = {
                 steps=[{"cmd": "c12", "judge": "J_C12", "cfg": "JudgeP.cfg"}]),
     "C13": dict(P("the same corruption families as C04; next() is called until None (at most |x|+8 items) and 5 more times; record = (|x|, items, items after the end, error positions)"),
                 mc={"quick": ["grammar"], "thorough": ["grammar"]},
+                proofs=["stream_abs"],
                 steps=[{"cmd": "c13", "judge": "J_C13", "cfg": "JudgeP.cfg"}]),
     "C18": dict({"rule": "operation sequences over push / extend_from_slice / truncate / clear / from_iter: every maximal behaviour TLC generates from MC_ArrayBuf (replayed into the real type), the harness' own "
                          "exhaustive enumeration of depth 3 (4 in thorough) for N in 0..3 (and 4, Vec in thorough), random histories of up to 24 operations on N in {5,8,16,31,48,255,256} and Vec",
@@ -254,7 +263,7 @@ MANIFEST_TEXT = {
               "all boolean bytes, at 8 field positions) with the spec's StreamItems, whose 32-bit TLF machine is itself checked against an arbitrary-precision rule.", "5/C12",
               "TLC-judged trace validation against the TLA+ TLF/primitive rules (J_C12)", _NOTE_P),
     "C13": _t("TLC judges (|x|, items, items after the end, error positions) of the real iterator on the corruption families: at most |x|+1 items, at most one error and it is last, then None for 5 further calls.",
-              "5/C13", "TLC-judged trace validation (J_C13)", _NOTE_P),
+              "5/C13", "TLC model checking (Terminates on MC_Grammar) + Apalache inductive side-proof of the item bound (unbounded input length, abstraction) + TLC-judged trace validation (J_C13)", _NOTE_P),
     "C01": _t("TLC checks RoundTrip/NothingAfter on the Decoder+Encoder spec for all payloads up to the bound, and judges observations of the real encoders x 11-14 decoder front-ends on ~20k payloads "
               "(exhaustive small alphabet, lengths across 2^8/2^10/2^13/2^16, corpus, random) with the monitor J_C01.", "5/C01", "TLC model checking + TLC-judged trace validation (J_C01)"),
     "C02": _t("TLC checks Sound (IsSuffix(Canonical(m), stream)) on the decoder spec over adversarial token trees with attacker-recomputed checksums, and judges every ok event the real front-ends "
